@@ -308,12 +308,15 @@ MODES = {
     "--backup": (["--backup"], True),
     "files": ([], False),
     "--backup --emit files": (["--backup", "--emit", "files"], True),
+    "--emit files --backup": (["--emit", "files", "--backup"], True),
     "--config make_backup=true": (["--config", "make_backup=true"], True),
 }
 
 
 def modes_for(thorough):
-    return list(MODES) if thorough else ["--backup", "files"]
+    # every spelling that selects the backup protocol is part of the alphabet: which emitter runs is
+    # decided in the command-line layer, before the protocol itself
+    return list(MODES) if thorough else ["--backup", "files", "--emit files --backup", "--backup --emit files"]
 
 
 def subject_argv(inp, mode, root):
